@@ -55,6 +55,8 @@ pub struct WirePlan {
     pub pct_depth: usize,
     pub max_steps: usize,
     pub teardown: Teardown,
+    /// Fault enumeration bookkeeping (not part of the execution).
+    pub fault_point: Option<(u64, u64, u64)>,
 }
 
 impl WirePlan {
@@ -67,6 +69,7 @@ impl WirePlan {
             "pct_depth": self.pct_depth,
             "max_steps": self.max_steps,
             "teardown": match self.teardown { Teardown::Clean => "clean", Teardown::BrokerShutdown => "broker-shutdown" },
+            "fault_point": self.fault_point.map(|(p, b, s)| serde_json::json!([p.to_string(), b, s])),
             "actors": self.actors.iter().map(|a| serde_json::json!({
                 "major": a.major, "minor": a.minor, "legacy": a.legacy, "capacity": a.capacity,
                 "abuser": a.abuser, "conformant": a.conformant, "window": a.window, "garbage": a.garbage,
@@ -114,6 +117,9 @@ impl WirePlan {
             } else {
                 Teardown::BrokerShutdown
             },
+            fault_point: v["fault_point"].as_array().and_then(|a| {
+                Some((a.first()?.as_str()?.parse().ok()?, a.get(1)?.as_u64()?, a.get(2)?.as_u64()?))
+            }),
         })
     }
 }
@@ -188,6 +194,8 @@ pub struct RunStats {
     pub step_cap_hit: bool,
     /// Harness-specific count (Level B: transport operations of the victim client).
     pub aux_count: u64,
+    /// Fault enumeration: (hash of the fault point, base program id, size of that base's fault space).
+    pub fault_point: Option<(u64, u64, u64)>,
 }
 
 pub struct RunResult {
